@@ -183,7 +183,7 @@ theorem fi_pop {src0 c : List Char} {m : Srcmap} {lo pos : Nat} {cs out : List N
       · rw [C05.byteLen_append]; omega
       · rw [byteLen_replicate_space]; omega
     obtain ⟨rx, e1⟩ := C05.translate_total m hm.wf (pos - tailSpaces last.content)
-    have hline := translate_same_line m hm.wf (pos - tailSpaces last.content) pos
+    have hline := translate_same_line m hm.wf hm.mono (pos - tailSpaces last.content) pos
       (by omega) (no_key_inside hm.lf hsp (space_not_lf _)) rx xe e1 hxe
     have hstart : start + byteLen pre = pos - tailSpaces last.content := by omega
     -- the kept part
